@@ -439,10 +439,15 @@ def result_shape_ok(result):
     return len(items) >= 1 and all(it is not None and not isinstance(it, tuple) for it in items)
 
 
+from contracts.parserstub import mk_parser   # noqa: E402
+
+
 @contract(S + "processLinearMoves")
 def _(c):
     def pre(b):
-        st = mk_motion_state(b)
+        # the state's parser is scratch space (the unchanged code does not touch it here); it is modelled so that a change
+        # which builds a command through it is executed rather than given up as "not read"
+        st = mk_motion_state(b, parser=mk_parser(b)) if not getattr(b, "native", False) else mk_motion_state(b)
         args = {"cmd": b.string("cmd"), "extruderPosition": b.optreal("e"), "feedRate": b.optreal("f"),
                 "finalZ": b.optreal("z"), "xyPairs": plm_shape(b)}
         # ghost of the C05 domain: cycle length L, file retraction depth dF, deepest file depth so far maxF
